@@ -18,7 +18,7 @@ try:
     if job.get("image") is not None:
         with open(op[3], "wb") as f:
             f.write(core.unb64(job["image"]))
-        os.utime(op[3], (c18.SIM_MTIME, c18.SIM_MTIME))
+        os.utime(op[3], (c18.sim_mtime(op[2]), c18.sim_mtime(op[2])))
     rec = c18.exec_op(op)
 finally:
     for n in os.listdir(d):
